@@ -1,4 +1,5 @@
 """C07 — Server-dictated poll interval (X-Retry-After) is honoured."""
+import re
 from ..core import BV, strip, walk, fmt_t
 from .. import lib, guards, sm as smod, terms, keys
 from ..sm import reach, path, reach_in, reach_pf
@@ -35,40 +36,58 @@ def run(F, R):
         R.check("C07-R1", "single-write", len(writes) == 1, "one write site", "%d write sites" % len(writes))
         bi, si, p, r = writes[0]
         vt = bv._trace_rv(r, None, 0)
-        vt = lib.inline_local_call(W, bv, vt)
-        while vt[0] in ("ref", "deref"):
-            vt = vt[1]
-        ok = vt[0] == "call" and vt[1].endswith("Option::<T>::and_then")
-        det = terms.render(bv, vt, W, {}, transparent=NOERR)[:300]
-        if ok:
-            get = vt[2][0]
-            while get[0] in ("ref", "deref"):
-                get = get[1]
-            okget = get[0] == "call" and lib.norm(get[1]).endswith("HeaderMap::<T>::get")
-            key = lib.term_const(c, strip(get[2][1])) if okget else None
-            recv = terms.render(bv, get[2][0], W, {}, transparent=NOERR) if okget else ""
-            R.check("C07-R1", "header-lookup", okget and key == HEADER and recv.endswith(".headers") and "into_parts" in recv,
-                    "headers.get(%r) on the parts of the received response" % key, "the value does not come from response.headers.get(\"X-Retry-After\"): key=%r recv=%s" % (key, recv[:120]), lib.loc(bv, bi))
-            clo = [x for x in walk(vt[2][1]) if x[0] == "agg" and x[1] == "closure"]
-            if not clo:
-                R.inconclusive("C07-R1", "value-closure", "and_then argument is not a closure literal")
-            else:
-                cb = W.bv(clo[0][2])
-                sw = [b for b in sorted(cb.reach0) if cb.blocks[b]["t"]["k"] == "switch" and len(cb.succ[b]) > 1 and cb.switch_subject(b) is not None]
-                if len(sw) != 1:
-                    R.inconclusive("C07-R1", "value-closure", "expected one match in the header closure, found %d" % len(sw))
-                else:
-                    si_, arms = terms.arm_terms(cb, sw[0])
-                    subj = terms.render(cb, si_.term, W, {2: "v"}, transparent=NOERR)
-                    exp_subj = "and_then(to_str(v), |$1| parse::<u64>($1))"
-                    R.check("C07-R1", "parse-term", subj == exp_subj, subj, "header value is parsed as %s, expected %s" % (subj, exp_subj), lib.loc(cb, sw[0]))
-                    okt = terms.render(cb, arms.get("Ok", ("undef", 0)), W, {2: "v"}, transparent=NOERR)
-                    ert = terms.render(cb, arms.get("Err", ("undef", 0)), W, {2: "v"}, transparent=NOERR)
-                    exp_ok = "Some{from_secs(min(%s@Ok.0, %d))}" % (exp_subj, CAP)
-                    R.check("C07-R1", "ok-arm", okt == exp_ok, okt, "parsed value maps to %s, expected %s" % (okt, exp_ok), lib.loc(cb, sw[0]))
-                    R.check("C07-R1", "err-arm", ert == "None{}", ert, "unparseable header maps to %s, expected None" % ert, lib.loc(cb, sw[0]))
-        else:
-            R.violation("C07-R1", "value-shape", "poll interval value is not headers.get(..).and_then(..): " + det, lib.loc(bv, bi))
+        from .. import optnorm
+        bodies = []
+        lv = optnorm.leaves(W, bv, vt, bodies)
+        kinds = sorted(set(l[0] for l in lv))
+        somes = [l for l in lv if l[0] == "some"]
+        others = [l for l in lv if l[0] == "other"]
+        R.check("C07-R1", "value-shape", not others and somes and "none" in kinds, "the value is None or Some(..) on every path (%d alternatives in %d bodies)" % (len(lv), len(bodies)),
+                "the poll interval can be something else than None / Some(parsed header): %s" % [terms.render(bv, l[1], W, {}, transparent=NOERR)[:120] for l in others][:3], lib.loc(bv, bi))
+        exp = "from_secs(min(parse::<u64>(to_str(get(RECV.headers, %r)@OK)@OK)@OK, %d))" % (HEADER, CAP)
+        for n_, l in enumerate(somes):
+            got = optnorm.canon(terms.render(bv, l[1], W, {}, transparent=NOERR))
+            m = re.fullmatch(r"from_secs\(min\(parse::<u64>\(to_str\(get\((.*)\.headers, '([^']*)'\)@OK\)@OK\)@OK, (\d+)\)\)", got) or \
+                re.fullmatch(r"from_secs\(min\((\d+), parse::<u64>\(to_str\(get\((.*)\.headers, '([^']*)'\)@OK\)@OK\)@OK\)\)", got)
+            if m:
+                g = m.groups()
+                recv, key, cap = (g[0], g[1], int(g[2])) if not g[0].isdigit() else (g[1], g[2], int(g[0]))
+            R.check("C07-R1", "some-payload#%d" % n_, bool(m) and key == HEADER and cap == CAP and "into_parts" in recv,
+                    "Some(from_secs(min(parse::<u64>(to_str(headers.get(%r))), %d))) on the parts of the received response" % (HEADER, CAP),
+                    "a Some(..) alternative of the poll interval is %s, expected %s" % (got[:200], exp), lib.loc(bv, bi))
+        # a present, well-formed header is never dropped: every None alternative is built behind the None edge of the
+        # lookup or the Err edge of to_str/parse (in whichever body builds it)
+        SRC = ("HeaderMap::<T>::get", "HeaderValue::to_str", "str::parse", "::parse", "and_then", "ok")
+        n_none = 0
+        for v in bodies:
+            nones = []
+            for b_ in sorted(v.reach0):
+                for s_ in v.blocks[b_]["s"]:
+                    if s_["k"] == "assign" and s_["r"]["k"] == "agg" and s_["r"].get("vn") == "None" and "Duration" in v.place_ty(s_["p"])["s"]:
+                        nones.append(b_)
+                t_ = v.blocks[b_]["t"]
+                if t_["k"] == "call" and lib.norm(t_.get("callee") or "").endswith("FromResidual::from_residual") and "Duration" in v.crate.types[t_["destt"]]["s"]:
+                    nones.append(b_)
+            if not nones:
+                continue
+            neg = []
+            for b_ in sorted(v.reach0):
+                si = guards.switch_info(v, b_)
+                if not (si and si.kind == "discr"):
+                    continue
+                h = lib.head_call(si.term) or ""
+                rs = terms.render(v, si.term, W, {}, transparent=NOERR)
+                if not (h.endswith("HeaderMap::<T>::get") or "to_str(" in rs or "parse::<u64>" in rs):
+                    continue
+                for tg in v.succ[b_]:
+                    nm = si.edge_names(v, tg)
+                    if nm and all(x in ("None", "Err", "Break") for x in nm):
+                        neg.append((b_, tg))
+            for b_ in nones:
+                n_none += 1
+                R.check("C07-R1", "none-only-if-absent-or-unparseable:%s#%d" % (v.name.split("::")[-1] if "{closure" not in v.name else "closure", n_none), bool(neg) and v.dominated_by_edge(b_, neg),
+                        "None is produced only when the header is absent or does not parse", "None can be produced for a header that is present and parses (the server's interval is dropped)", lib.loc(v, b_))
+        R.floor("C07-R1", "None alternatives of the header evaluation", n_none, 1)
     # ---------------------------------------------------------------- R2 independent of status
     R.rule("C07-R2", "the header evaluation and the changed-test dominate the HTTP status test (not control-dependent on status or request kind)")
     for cx in ex[:1]:
